@@ -11,8 +11,8 @@ import (
 // error refuses messages every conforming decoder accepts.
 func init() {
 	register(&Rule{
-		Name: "LENZERO",
-		Doc: "a length decoded by BinaryProtocol.ReadLength() is never rejected for being zero: an If condition `len <= 0`, `len < 1` or `len == 0` on (a conversion of) that result whose true edge returns a certainly non-nil error is a violation (`len < 0` is fine); empty embedded messages, strings and packed lists are valid wire data",
+		Name:     "LENZERO",
+		Doc:      "a length decoded by BinaryProtocol.ReadLength() is never rejected for being zero: an If condition `len <= 0`, `len < 1` or `len == 0` on (a conversion of) that result whose true edge returns a certainly non-nil error is a violation (`len < 0` is fine); empty embedded messages, strings and packed lists are valid wire data",
 		Configs:  "NP",
 		Floor:    map[string]int{"N": 8, "P": 8},
 		Controls: 1,
